@@ -564,6 +564,9 @@ class Monitor:
 		self.seg_tick = None      # (fn, expected link owners) of the tick in this segment
 		self.clock_thread = None
 		self.t_now = None
+		sl = cfg.get("slow")
+		# injected handler time: ticks lost to overruns while the machine was slow are no violation
+		self.slack_ns = (sl["count"] * (sl["dur"] + P_NS)) if sl else 0
 
 	def bad(self, clause, **detail):
 		if len(self.viols) < 6:
@@ -596,7 +599,7 @@ class Monitor:
 				exp = m.on_ctrl(T, kw["data"], t)
 				while m.clock_sessions:
 					span, ticks = m.clock_sessions.pop()
-					if span > 3 * P_NS and ticks < span // P_NS - 2:
+					if span > 3 * P_NS and ticks < (span - self.slack_ns) // P_NS - 2:
 						self.bad("clock.no-ticks-while-running", span_ns=span, ticks=ticks, at="clock stop")
 				if exp is not None and "hostile" in exp:
 					self._hostile_ctrl(T, exp, kw, t)
@@ -690,7 +693,11 @@ class Monitor:
 		data = kw["data"]
 		if tuple(kw["dst"]) != tuple(exp["src"]):
 			self.bad("ctrl.response-destination", trx=T.label(), verb=exp["verb"], dst=kw["dst"], want=exp["src"])
-		if t - exp["t"] != exp["delay_ns"]:
+		late = t - exp["t"] - exp["delay_ns"]
+		# stopping the clock generator waits for the tick in progress: with an injected slow frame
+		# handler a POWEROFF is answered up to one (slow) handler time later
+		sl = self.m.cfg.get("slow")
+		if late != 0 and not (sl and exp["verb"] == "POWEROFF" and 0 < late <= sl["dur"] + P_NS):
 			self.bad("ctrl.response-delay", trx=T.label(), verb=exp["verb"], got_ns=t - exp["t"], want_ns=exp["delay_ns"])
 		try:
 			text = data.decode()
@@ -1082,7 +1089,7 @@ class Monitor:
 		self._close_seg()
 		if m.clock_running and m.clock_started_at is not None:
 			span = t_end - m.clock_started_at
-			if span > 3 * P_NS and m.ticks_since_start < span // P_NS - 2:
+			if span > 3 * P_NS and m.ticks_since_start < (span - self.slack_ns) // P_NS - 2:
 				self.bad("clock.no-ticks-while-running", span_ns=span, ticks=m.ticks_since_start)
 		return self.viols
 
